@@ -62,6 +62,9 @@ FORMER = [
         {"op": "addRule", "loc": "A", "id": "r", "rule": R("0 0 1 1 *")}, {"op": "addRule", "loc": "B", "id": "q", "rule": R("+1h")},
         {"op": "addFact", "loc": "A", "id": "f", "fact": {"k": 1}}, {"op": "clear", "loc": "A"},
         {"op": "tick", "loc": "A", "id": "r"}, {"op": "tick", "loc": "B", "id": "q"}]},
+    {"kind": "c15.hist", "mode": "real", "state": "linear", "locs": ["A", "B"], "ops": [
+        {"op": "addRule", "loc": "A", "id": "r", "rule": R("0 0 1 1 *")}, {"op": "addRule", "loc": "B", "id": "q", "rule": R("+1h")},
+        {"op": "deleteLoc", "loc": "A"}, {"op": "tick", "loc": "A", "id": "r"}, {"op": "tick", "loc": "B", "id": "q"}]},
     # C15-linear-load: LinearState.Load called no add hook (after a restart with the ephemeral cron the rule never ran)
     {"kind": "c15.hist", "mode": "real", "state": "linear", "locs": ["A"], "ops": [
         {"op": "addRule", "loc": "A", "id": "r", "rule": R("0 0 1 1 *")}, {"op": "restart"}, {"op": "tick", "loc": "A", "id": "r"}]},
